@@ -16,6 +16,7 @@ import common as C
 from common import log
 
 SEP = " @@ "
+MODEL_EXE = None     # set to the driver built from the reference facts when the theorems no longer check (see common.ref_driver)
 
 
 class Div:
@@ -74,7 +75,7 @@ def run_model(P, cases):
     for c in cases:
         lines.append("# " + c["id"])
         lines += c["lines"]
-    out, err, rc = C.run_lines([C.driver_path(P.COMPONENT)], lines, timeout=getattr(P, "TIMEOUT", 900))
+    out, err, rc = C.run_lines([MODEL_EXE or C.driver_path(P.COMPONENT)], lines, timeout=getattr(P, "TIMEOUT", 900))
     if rc != 0:
         raise C.BuildError("Lean driver failed rc=%s: %s" % (rc, err[-2000:]))
     return split_cases(out)
@@ -110,15 +111,21 @@ def compare_case(P, case, impl_lines, crash, model_lines):
             r = cmp(case, i, il, m, s, tags)
             if r is not None:
                 divs.append(Div(r[0], case, i, il, m, s, tags, r[1]))
-                if r[0] == "model":
-                    # correspondence broke: look further down this case for a line that contradicts the specification
+                if r[0] == "model" and spec_part(il) == spec_part(m):
+                    # correspondence broke on internal state only (the visible parts agree, so implementation and
+                    # model are still on the same abstract history and the specification lines below still apply):
+                    # look further down this case for a line that contradicts the specification
                     for j in range(i + 1, min(n, len(impl_lines), len(model_lines))):
+                        if case["lines"][j].split(" ")[0] in getattr(P, "LAYOUT_OPS", ()):
+                            break       # an op whose meaning depends on the internal layout, which no longer corresponds
                         mj, sj, tj, _ = parse_model_line(model_lines[j])
                         rj = cmp(case, j, impl_lines[j], mj, sj, tj)
                         if rj is not None and rj[0] in ("spec", "crash") and sj not in ("", "*"):
                             divs.insert(0, Div(rj[0], case, j, impl_lines[j], mj, sj, tj,
                                                rj[1] + " (after the correspondence with the model broke at line %d)" % i))
                             break
+                        if spec_part(impl_lines[j]) != spec_part(mj):
+                            break       # the histories parted in a way the specification allows: nothing below compares
                 break
             continue
         if s != "" and s != "*" and spec_part(il) != s:
@@ -129,15 +136,22 @@ def compare_case(P, case, impl_lines, crash, model_lines):
             # implementation and model breaks the correspondence, not (by itself) the property
             kind = "spec" if (spec_part(il) != spec_part(m) and s in ("", "*") and getattr(P, "MODEL_IS_SPEC", False)) else "model"
             divs.append(Div(kind, case, i, il, m, s, tags, "implementation differs from the Lean model"))
-            if kind == "model":
-                # the correspondence broke here; the specification is computed from the op lines alone, so keep
-                # looking in the rest of this case for a line on which the implementation contradicts it - that
-                # is a failing input for the property and is reported first
+            if kind == "model" and spec_part(il) == spec_part(m):
+                # the correspondence broke here on internal state only; the visible parts agree, so the specification
+                # lines below (computed along the model's history) still apply: keep looking in the rest of this case
+                # for a line on which the implementation contradicts them - that is a failing input for the property
+                # and is reported first.  (When the visible parts differ in a way the specification allows - e.g. an
+                # allocation refused in one and served in the other - the histories have parted and nothing below
+                # can be compared.)
                 for j in range(i + 1, min(n, len(impl_lines), len(model_lines))):
+                    if case["lines"][j].split(" ")[0] in getattr(P, "LAYOUT_OPS", ()):
+                        break
                     mj, sj, tj, _ = parse_model_line(model_lines[j])
                     if sj not in ("", "*") and spec_part(impl_lines[j]) != sj:
                         divs.insert(0, Div("spec", case, j, impl_lines[j], mj, sj, tj,
                                            "implementation differs from the specification (after the correspondence with the model broke at line %d)" % i))
+                        break
+                    if spec_part(impl_lines[j]) != spec_part(mj):
                         break
                 else:
                     if len(impl_lines) < n and crash:
@@ -252,8 +266,24 @@ def main():
         obligations_broken.append(("model/driver build: " + "; ".join(C.failing_decls(out_drv)[:5]), out_drv[-1500:]))
     ok_p, out_p = C.lake(["JsonC.Props." + prop])
     thms, ax = [], {}
+    changed = C.facts_changed()
+    if ok_drv and not changed:
+        C.cache_ref_driver(P.COMPONENT)
     if not ok_p:
         obligations_broken.append(("theorem(s) no longer check: " + "; ".join(C.failing_decls(out_p)[:8]), out_p[-2500:]))
+    if (not ok_p or not ok_drv) and changed:
+        # The theorems are about the model built from the reference facts (lean/ref): that model, not one rebuilt
+        # from facts no theorem covers, is what the implementation is compared with in the search for a failing input.
+        global MODEL_EXE
+        try:
+            MODEL_EXE = C.ref_driver(P.COMPONENT)
+            ok_drv = True
+            notes.append("extracted facts differ from the reference facts and a theorem no longer checks: the search "
+                         "compared the implementation with the model built from the reference facts")
+            obligations_broken.append(("extracted facts changed: " + "; ".join(n for n, _ in changed),
+                                       "\n".join(l for _, ls in changed for l in ls)[:3000]))
+        except C.BuildError as e:
+            log(str(e))
     else:
         hits = C.audit_sources(prop)
         if hits:
